@@ -30,8 +30,10 @@ def run_check(prop, root, tier="quick"):
     rep = core.Report(prop)
     rep.ctx = ctx
     rep.engine_free = set(getattr(mod, "ENGINE_FREE", ()))
+    rep.idiom_exempt = set(getattr(mod, "IDIOM_GUARD_EXEMPT", ()))
     mod.check(ctx, rep, tier)
     rep.engine_guard()
+    rep.idiom_guard()
     return rep
 
 
